@@ -169,10 +169,16 @@ static vj::value handle(const vj::value& c) {
     if (op == "dstack") return project(view::dstack(a, b));
     if (op == "column_stack") return project(view::column_stack(a, b));
     if (op == "where") {
-        // condition: operand 0 interpreted as (value % 2 == 1); x, y: operands 1 and 2
-        auto cond = make_leaf<long>(ss[0], 0);
-        for (size_t p = 0; p < cond.size(); p++) cond.data()[p] = cond.data()[p] % 2;
+        // condition: operand 0 mapped to (value % 3) - 1, i.e. -1 / 0 / 1 (true iff non-zero; negative values are true);
+        // args.cond = "float": the same truth pattern as -0.5 / 0 / 0.5.  x, y: operands 1 and 2
         auto x = make_leaf<long>(ss[1], 1); auto y = make_leaf<long>(ss[2], 2);
+        if (g.has("cond") && g["cond"].as_str() == "float") {
+            auto cond = make_leaf<double>(ss[0], 0);
+            for (size_t p = 0; p < cond.size(); p++) cond.data()[p] = (double)(((long)cond.data()[p] % 3) - 1) * 0.5;
+            return project(view::where(cond, x, y));
+        }
+        auto cond = make_leaf<long>(ss[0], 0);
+        for (size_t p = 0; p < cond.size(); p++) cond.data()[p] = (cond.data()[p] % 3) - 1;
         return project(view::where(cond, x, y));
     }
     return crash_res("unknown op " + op);
